@@ -27,7 +27,18 @@ def check_state_for_iface(rep, prog, rule):
         g.cells[((), 0)] = (W, ('pset', ('sym', 'g_iface_states@entry', 0, 0), (ZERO, ('ptr', 'RECS', ZERO))))
         st.tags['known_globals'] = ('g:g_iface_states',)
         return [Val(ix.parse_type('void *'), ('ptr', 'ext:ctx', ZERO))]
-    I, outs = run_entry(prog, BLOCK_UNIT, 'lltd_state_for_iface', setup, port=PortModel(), name='lltd_state_for_iface')
+    from ..engine import Engine
+    E = Engine(prog, port=PortModel(), entry_name='lltd_state_for_iface')
+    E.loop_info = {}
+    E.keep_iter_states = True
+    I, outs = run_entry(prog, BLOCK_UNIT, 'lltd_state_for_iface', setup, engine=E, name='lltd_state_for_iface')
+    want_ctx = ('ptr', 'ext:ctx', ZERO)
+
+    def knows_key(s2):
+        return any(str(a[1]).startswith('weakptr:RECS+%d#' % ctx_off) and s2.canon(b) == want_ctx for a, b in s2.eq.items() if a[0] == 'sym')
+    # every early exit of the search (in the lookup itself or in a helper it was split into) rests on the comparison
+    early = [s2 for info in I.loop_info.values() for kind, trace, s2 in (info.get('iter_states') or []) if kind in ('return', 'break')]
+    early_ok = bool(early) and all(knows_key(s2) for s2 in early)
     kinds = {'found': 0, 'null': 0, 'fresh': 0}
     for st, v in outs:
         t = st.canon(v.t)
@@ -40,7 +51,8 @@ def check_state_for_iface(rep, prog, rule):
             kinds['found'] += 1
             # the hit must rest on the record's context having been compared equal to the caller's
             want = ('ptr', 'ext:ctx', ZERO)
-            ok = any(str(a[1]).startswith('weakptr:RECS+%d#' % ctx_off) and st.canon(b) == want for a, b in st.eq.items() if a[0] == 'sym')
+            # (the final state may have lost the equality where hits at different list positions were merged)
+            ok = knows_key(st) or early_ok
             rep.check(ok, rule, 'state_for_iface|hit-key', 'the lookup returns a record without its context having been compared equal to the caller\'s context '
                       '(another interface\'s state could be handed out)', node=fn, function='lltd_state_for_iface')
         elif t[0] == 'ptr' and st.objs.get(t[1]) is not None and st.objs[t[1]].heap:
